@@ -200,6 +200,10 @@ func (n *node) open() {
 		w.c.Harnessf("controller.New: %v", e)
 	}
 	ctl.RCManager = &rcStub{n}
+	if w.govEnabled() {
+		// the node is inside the approve-list voting window of its current round (see gov.go)
+		ctl.Consensus.VerifSetProposalVoteDeadline(1 << 61)
+	}
 	n.db, n.st, n.ctl, n.up = db, st, ctl, true
 	// what Controller.Start() does once the root chain info is available
 	reset := ctl.SetFSMInConsensusModeForProposals()
